@@ -130,14 +130,18 @@ ssize_t __wrap_read(int fd, void* buf, size_t n) {
     return __real_read(fd, buf, n);
   }
   if (f->closed) { errno = EBADF; return -1; }
+  size_t lim = f->chunk;
   switch (next_answer(f)) {
     case 1: errno = EINTR; return -1;
     case 2: errno = EIO; return -1;
     case 3: return 0;
+    case 4: if (n > 1) lim = 1; break;
+    case 5: if (n > 1) lim = n - 1; break;
     default: break;
   }
   size_t avail = f->data.size() - f->rpos;
   size_t k = n < avail ? n : avail;
+  if (k > lim) k = lim;
   if (k) memcpy(buf, f->data.data() + f->rpos, k);
   f->rpos += k;
   return (ssize_t)k;
@@ -149,15 +153,19 @@ ssize_t __wrap_write(int fd, const void* buf, size_t n) {
     return __real_write(fd, buf, n);
   }
   if (f->closed) { errno = EBADF; return -1; }
+  size_t lim = f->chunk;
   switch (next_answer(f)) {
     case 1: errno = EINTR; return -1;
     case 2: errno = EIO; return -1;
     case 3: return 0;
+    case 4: if (n > 1) lim = 1; break;
+    case 5: if (n > 1) lim = n - 1; break;
     default: break;
   }
   size_t room = f->wcap - f->data.size();
   size_t k = n < room ? n : room;
   if (k == 0 && n > 0) { errno = ENOSPC; return -1; }
+  if (k > lim) k = lim;
   f->data.insert(f->data.end(), (const uint8_t*)buf, (const uint8_t*)buf + k);
   return (ssize_t)k;
 }
